@@ -230,6 +230,8 @@ def t_sop(op):
         return "(SAddLease %s %s %s)" % (T.bytes_(op[1]), T.bytes_(op[2]), T.lst([T.N(n) for n in op[3]]))
     if k == "renew":
         return "(SRenew %s %s)" % (T.bytes_(op[1]), T.lst([T.N(n) for n in op[2]]))
+    if k == "alloc":
+        return "(SAlloc %s %s %s %s)" % (T.N(op[5]), T.bytes_(op[1]), T.bytes_(op[2]), T.lst([T.N(n) for n in op[4]]))
     if k == "tick":
         return "(STick %s)" % T.N(op[1])
     raise ValueError(k)
@@ -241,7 +243,7 @@ def t_sobs(op, r):
         return "(OTW %s)" % t_res(r, lambda v: T.pair(T.boolean(v[0]), t_reads(v[1])))
     if k == "readv":
         return "(OReadv %s)" % t_res(r, t_reads)
-    if k in ("add", "renew"):
+    if k in ("add", "renew", "alloc"):
         return "(OLease %s)" % t_opt_err(r)
     return "OTick"
 
@@ -252,6 +254,8 @@ def with_order(ss, si, op):
         return op + (listing(ss, si),)
     if op[0] == "renew" and len(op) == 2:
         return op + (listing(ss, si),)
+    if op[0] == "alloc" and len(op) == 4:      # ("alloc", rs, cs, sharenums) -> + listing, owner_num
+        return op + (listing(ss, si), 0)
     return op
 
 
@@ -267,6 +271,13 @@ def run_sop(ss, clock, si, op):
         return call(ss.add_lease, si, op[1], op[2])
     if k == "renew":
         return call(ss.renew_lease, si, op[1])
+    if k == "alloc":
+        def alloc():
+            got, writers = ss.allocate_buckets(si, op[1], op[2], set(op[3]), 10, owner_num=op[5])
+            for bw in writers.values():      # shares the server does not hold yet: not part of this model
+                bw.abort()
+            return sorted(got)
+        return call(alloc)
     if k == "tick":
         clock.advance(op[1])
         return ("ok", None)
@@ -278,7 +289,7 @@ def secrets_of(ops):
     for op in ops:
         if op[0] == "tw":
             out.update(op[1][1:])
-        elif op[0] == "add":
+        elif op[0] in ("add", "alloc"):
             out.update(op[1:3])
         elif op[0] == "renew":
             out.add(op[1])
